@@ -267,3 +267,48 @@ def fully_iterated(fn, du, elem_ty):
         if ok:
             out.append((bid, v))
     return out
+
+
+def swallowed_errors(ctx, fn0):
+    """[(callee, line)]: in a function that returns Result, a call of a crate function that returns Result whose Err - established by
+    is_err / match / `?` - can reach an `Ok(..)` return of the function on a feasible path that does not unwrap it first: the
+    sub-reader's error is swallowed instead of reported"""
+    from ..cfg import cfg_of
+    from ..dataflow import du_of
+    from ..guards import guards_of
+    from ..callgraph import callee_name
+    from ..loops import feasible_reach
+    F = ctx.F
+    if not (fn0.ret or "").startswith("std::result::Result<"):
+        return []
+    fn = ctx.inl(fn0)
+    cfg, du, g = cfg_of(fn), du_of(fn), guards_of(fn)
+    ok_rets = [b for b in cfg.live_blocks() if any(s["k"] == "assign" and s["place"]["l"] == 0 and not s["place"]["p"] and s["rv"]["k"] == "aggregate" and s["rv"].get("variant") == "Ok" for s in cfg.blocks[b]["stmts"])]
+    out = []
+    for bid, t in fn.calls():
+        if bid >= len(fn0.blocks) or t["dest"] is None or t["dest"]["p"]:
+            continue
+        c = callee_name(t) or ""
+        g2 = F.fns.get(c)
+        if g2 is None or g2.crate != "rws" or not (g2.ret or "").startswith("std::result::Result<"):
+            continue
+        root = (t["dest"]["l"], ())
+        err_edges = [e for e, f in g.facts() if f[0] == "variant" and f[1] == root and f[3] is False]
+        if not err_edges:
+            continue
+        # an unwrap / expect of the same result behind the Err edge panics: not a way to an Ok return (C20's business)
+        dead = set()
+        for b2, t2 in fn.calls():
+            c2 = callee_name(t2) or ""
+            if c2.endswith(("Result::<T, E>::unwrap", "Result::<T, E>::expect")) and t2["args"] and t2["args"][0].get("k") in ("copy", "move"):
+                if du.canon((t2["args"][0]["l"], ()))[0] == root[0] or t2["args"][0]["l"] == root[0]:
+                    dead.add(b2)
+        reach = set()
+        for e in err_edges:
+            r = feasible_reach(cfg, edge=e, avoid=dead)
+            if r is None:
+                r = cfg.reachable_from(e[1], removed_nodes=dead)
+            reach |= r
+        if any(b in reach for b in ok_rets):
+            out.append((c, t["span"]["line"], bid))
+    return out
